@@ -62,6 +62,11 @@ func c07Scenarios() []c07Scn {
 	add("poll-resolves-failed", pend, "pollm|0|", "", "F")
 	add("check-resolves-succeeded", pend, "check|0|", "", "S")
 	add("check-resolves-failed", pend, "check|0|", "", "F")
+	add("poll-lookup-error-then-succeeded", pend, "pollm|0|E", "S", "")
+	add("poll-lookup-error-then-failed", pend, "pollm|0|E", "F", "")
+	add("check-lookup-error-then-failed", pend, "check|0|E", "F", "")
+	add("respend-of-locked-input-then-succeeded", pend, "swap|0|exact", "S", "")
+	add("respend-of-spent-input", append(append([]string{}, base...), "swap|0|exact"), "swap|0|exact", "", "")
 	add("pollq-unpaid-to-paid", append(append([]string{}, base...), "mq|8", "settle|1"), "pollq|1", "", "")
 	add("mintquote", base, "mq|8", "", "")
 	add("meltquote", base, "meltq|4", "", "")
@@ -239,9 +244,14 @@ func c07Exec(j c07Job) (res c07Res) {
 		return res
 	}
 	if j.K < 0 {
+		// counting run: only the list of boundary calls is taken from it. What the operation does wrong without any
+		// fault is for the transition oracles of the other properties; C07 judges the faulted runs with its own oracles
+		// (a fault-free defect that matters here shows up in them, e.g. at k = n, response lost)
 		res.Calls = calls
-		if len(w.V) > vBefore {
-			res.Err = "fault-free run of " + sc.Op + " raised: " + w.V[vBefore].Key + ": " + w.V[vBefore].What
+		for _, v := range w.V[vBefore:] {
+			if v.Property == "HARNESS" {
+				res.Err = v.What
+			}
 		}
 		return res
 	}
@@ -551,10 +561,12 @@ func c07Kind(name string) string {
 		return "MeltTokens-internal"
 	case strings.HasPrefix(name, "melt-") && name != "meltquote":
 		return "MeltTokens"
-	case strings.HasPrefix(name, "poll-resolves"):
+	case strings.HasPrefix(name, "poll-resolves"), strings.HasPrefix(name, "poll-lookup"):
 		return "GetMeltQuoteState"
-	case strings.HasPrefix(name, "check-resolves"):
+	case strings.HasPrefix(name, "check-resolves"), strings.HasPrefix(name, "check-lookup"):
 		return "ProofsStateCheck"
+	case strings.HasPrefix(name, "respend"):
+		return "Swap"
 	case name == "pollq-unpaid-to-paid":
 		return "GetMintQuoteState"
 	case name == "mintquote":
@@ -639,6 +651,17 @@ func c07GenMenu(w *mintops.W) []string {
 				ins += fmt.Sprint(n)
 			}
 			ops = append(ops, fmt.Sprintf("pollm|%d|S", j), fmt.Sprintf("pollm|%d|F", j), fmt.Sprintf("check|%s|S", ins))
+			// the backend cannot be asked (lookup error): nothing may be decided
+			ops = append(ops, fmt.Sprintf("pollm|%d|E", j), fmt.Sprintf("check|%s|E", ins))
+			// an attempt to spend the locked inputs elsewhere: refused without a fault, and with one
+			ops = append(ops, fmt.Sprintf("swap|%s|exact", ins))
+		}
+	}
+	// an attempt to spend a spent proof again
+	for i, p := range w.Proofs {
+		if p.St == mintops.Spent {
+			ops = append(ops, fmt.Sprintf("swap|%d|exact", i))
+			break
 		}
 	}
 	if len(w.Keysets) < 2 {
